@@ -21,8 +21,20 @@ def _kind(features):
     return ProblemKind(features, version=3)
 
 
+def _km(feats):
+    """(supported_kind, supports) static methods for a class body, as the Engine interface demands."""
+    feats = list(feats)
+
+    def supported_kind():
+        return _kind(feats)
+
+    def supports(problem_kind):
+        return problem_kind <= _kind(feats)
+
+    return staticmethod(supported_kind), staticmethod(supports)
+
+
 class _Stub(Engine):
-    FEATURES = CLASSICAL
 
     def __init__(self, **kwargs):
         Engine.__init__(self)
@@ -31,25 +43,6 @@ class _Stub(Engine):
     @property
     def name(self):
         return type(self).__name__
-
-    @classmethod
-    def _sk(cls):
-        return _kind(cls.FEATURES)
-
-
-def _kind_methods(cls):
-    """supported_kind / supports as static methods, as the Engine interface demands."""
-    feats = list(cls.FEATURES)
-
-    def supported_kind():
-        return _kind(feats)
-
-    def supports(problem_kind):
-        return problem_kind <= _kind(feats)
-
-    cls.supported_kind = staticmethod(supported_kind)
-    cls.supports = staticmethod(supports)
-    return cls
 
 
 class _Oneshot(_Stub, OneshotPlannerMixin):
@@ -61,31 +54,31 @@ class _Oneshot(_Stub, OneshotPlannerMixin):
         raise NotImplementedError
 
 
-@_kind_methods
 class StubSat(_Oneshot):
     """satisficing planner, broad kind"""
     FEATURES = CLASSICAL + ["CONDITIONAL_EFFECTS", "EXISTENTIAL_CONDITIONS", "UNIVERSAL_CONDITIONS", "ACTIONS_COST", "INT_NUMBERS_IN_ACTIONS_COST",
                             "SIMPLE_NUMERIC_PLANNING", "INT_FLUENTS", "INCREASE_EFFECTS", "DECREASE_EFFECTS"]
+    supported_kind, supports = _km(FEATURES)
 
     @staticmethod
     def satisfies(optimality_guarantee):
         return optimality_guarantee == OptimalityGuarantee.SATISFICING
 
 
-@_kind_methods
 class StubOpt(_Oneshot):
     """optimal planner, narrow kind"""
     FEATURES = CLASSICAL + ["ACTIONS_COST", "INT_NUMBERS_IN_ACTIONS_COST", "PLAN_LENGTH", "CONDITIONAL_EFFECTS"]
+    supported_kind, supports = _km(FEATURES)
 
     @staticmethod
     def satisfies(optimality_guarantee):
         return True
 
 
-@_kind_methods
 class StubTemporal(_Oneshot):
     """satisficing temporal planner that says nothing about guarantees (inherits OneshotPlannerMixin.satisfies == False)"""
     FEATURES = CLASSICAL + ["CONTINUOUS_TIME", "INT_TYPE_DURATIONS", "REAL_TYPE_DURATIONS", "TIMED_EFFECTS", "TIMED_GOALS", "DURATION_INEQUALITIES", "MAKESPAN"]
+    supported_kind, supports = _km(FEATURES)
 
 
 class _Anytime(_Stub, AnytimePlannerMixin):
@@ -97,28 +90,28 @@ class _Anytime(_Stub, AnytimePlannerMixin):
         raise NotImplementedError
 
 
-@_kind_methods
 class StubAnyInc(_Anytime):
     FEATURES = CLASSICAL + ["ACTIONS_COST", "INT_NUMBERS_IN_ACTIONS_COST", "CONDITIONAL_EFFECTS", "SIMPLE_NUMERIC_PLANNING", "INT_FLUENTS", "INCREASE_EFFECTS"]
+    supported_kind, supports = _km(FEATURES)
 
     @staticmethod
     def ensures(anytime_guarantee):
         return anytime_guarantee == AnytimeGuarantee.INCREASING_QUALITY
 
 
-@_kind_methods
 class StubAnyOpt(_Anytime):
     FEATURES = CLASSICAL + ["ACTIONS_COST", "INT_NUMBERS_IN_ACTIONS_COST", "PLAN_LENGTH"]
+    supported_kind, supports = _km(FEATURES)
 
     @staticmethod
     def ensures(anytime_guarantee):
         return anytime_guarantee == AnytimeGuarantee.OPTIMAL_PLANS
 
 
-@_kind_methods
 class StubAnyPlain(_Anytime):
     """no guarantee at all (inherits AnytimePlannerMixin.ensures == False)"""
     FEATURES = CLASSICAL + ["CONDITIONAL_EFFECTS", "EXISTENTIAL_CONDITIONS", "UNIVERSAL_CONDITIONS", "ACTIONS_COST"]
+    supported_kind, supports = _km(FEATURES)
 
 
 class _Repairer(_Stub, PlanRepairerMixin):
@@ -130,9 +123,9 @@ class _Repairer(_Stub, PlanRepairerMixin):
         raise NotImplementedError
 
 
-@_kind_methods
 class StubRepairSeq(_Repairer):
     FEATURES = CLASSICAL + ["CONDITIONAL_EFFECTS", "ACTIONS_COST", "INT_NUMBERS_IN_ACTIONS_COST"]
+    supported_kind, supports = _km(FEATURES)
 
     @staticmethod
     def supports_plan(plan_kind):
@@ -143,9 +136,9 @@ class StubRepairSeq(_Repairer):
         return optimality_guarantee == OptimalityGuarantee.SATISFICING
 
 
-@_kind_methods
 class StubRepairAny(_Repairer):
     FEATURES = CLASSICAL + ["CONTINUOUS_TIME", "INT_TYPE_DURATIONS", "ACTIONS_COST"]
+    supported_kind, supports = _km(FEATURES)
 
     @staticmethod
     def supports_plan(plan_kind):
@@ -165,18 +158,18 @@ class _Portfolio(_Stub, PortfolioSelectorMixin):
         raise NotImplementedError
 
 
-@_kind_methods
 class StubPortfolio(_Portfolio):
     FEATURES = CLASSICAL + ["CONDITIONAL_EFFECTS", "ACTIONS_COST"]
+    supported_kind, supports = _km(FEATURES)
 
     @staticmethod
     def satisfies(optimality_guarantee):
         return optimality_guarantee == OptimalityGuarantee.SATISFICING
 
 
-@_kind_methods
 class StubPortfolioNarrow(_Portfolio):
     FEATURES = CLASSICAL + ["ACTIONS_COST", "PLAN_LENGTH"]
+    supported_kind, supports = _km(FEATURES)
 
     @staticmethod
     def satisfies(optimality_guarantee):
@@ -188,9 +181,9 @@ class _Validator(_Stub, PlanValidatorMixin):
         raise NotImplementedError
 
 
-@_kind_methods
 class StubPOValidator(_Validator):
     FEATURES = CLASSICAL + ["CONDITIONAL_EFFECTS", "EXISTENTIAL_CONDITIONS"]
+    supported_kind, supports = _km(FEATURES)
 
     @staticmethod
     def supports_plan(plan_kind):
@@ -209,14 +202,14 @@ class _Selector(_Stub, ActionSelectorMixin):
         raise NotImplementedError
 
 
-@_kind_methods
 class StubSelector(_Selector):
     FEATURES = CLASSICAL + ["CONDITIONAL_EFFECTS", "CONTINGENT"]
+    supported_kind, supports = _km(FEATURES)
 
 
-@_kind_methods
 class StubSelectorNarrow(_Selector):
     FEATURES = CLASSICAL
+    supported_kind, supports = _km(FEATURES)
 
 
 class _Compiler(_Stub, CompilerMixin):
@@ -228,10 +221,10 @@ class _Compiler(_Stub, CompilerMixin):
         raise NotImplementedError
 
 
-@_kind_methods
 class StubGrounder(_Compiler):
     """a second grounder with a narrow kind that also claims MA_CENTRALIZATION; declares its output honestly (unchanged kind)"""
     FEATURES = CLASSICAL + ["CONDITIONAL_EFFECTS", "ACTION_BASED_MULTI_AGENT"]
+    supported_kind, supports = _km(FEATURES)
 
     @staticmethod
     def supports_compilation(compilation_kind):
